@@ -327,8 +327,8 @@ class OctetStringPayloadDecoder(AbstractSimplePayloadDecoder):
         # head = popSubstream(substrate, length)
         while substrate.tell() - original_position < length:
             for component in decodeFun(
-                    substrate, self.protoComponent, substrateFun=substrateFun,
-                    **options):
+                    substrate, OctetStringPayloadDecoder.protoComponent,
+                    substrateFun=substrateFun, **options):
                 if isinstance(component, SubstrateUnderrunError):
                     yield component
 
@@ -356,8 +356,8 @@ class OctetStringPayloadDecoder(AbstractSimplePayloadDecoder):
         while True:  # loop over fragments
 
             for component in decodeFun(
-                    substrate, self.protoComponent, substrateFun=substrateFun,
-                    allowEoo=True, **options):
+                    substrate, OctetStringPayloadDecoder.protoComponent,
+                    substrateFun=substrateFun, allowEoo=True, **options):
 
                 if isinstance(component, SubstrateUnderrunError):
                     yield component
